@@ -3,6 +3,7 @@
 package torrent
 
 import (
+	"crypto/sha1"
 	"sort"
 
 	"github.com/cenkalti/rain/v2/internal/tracker"
@@ -61,6 +62,7 @@ func VerifInvalidIDs(s *Session) []string {
 type VerifTorrentView struct {
 	StopAfterDownload, StopAfterMetadata, Sequential, CompleteCmdRun bool
 	HasInfo                                                          bool
+	InfoRot                                                          bool // info bytes no longer hash to the info-hash
 	FixedPeers                                                       []string
 	Trackers                                                         [][]string // tiers of the live tracker set, URLs sorted inside a tier
 	Downloaded, Uploaded, Wasted, SeededFor                          int64
@@ -89,6 +91,7 @@ func VerifView(t *Torrent) VerifTorrentView {
 		Sequential:        tt.sequential,
 		CompleteCmdRun:    tt.completeCmdRun,
 		HasInfo:           tt.info != nil,
+		InfoRot:           tt.info != nil && sha1.Sum(tt.info.Bytes) != tt.infoHash,
 		FixedPeers:        tt.fixedPeers,
 		Downloaded:        tt.bytesDownloaded.Count(),
 		Uploaded:          tt.bytesUploaded.Count(),
